@@ -1064,9 +1064,11 @@ def m_eq(eng, call, args):
     meth = [x for x in call["norm_names"] if x.startswith("std::cmp::PartialEq::")][0].split("::")[-1]
     a = _alg_val(eng, call, args[0])
     b = _alg_val(eng, call, args[1])
-    # &&T comparisons: strip one more level
-    while a.op in ("refv",) and b.op in ("refv",):
-        a, b = a.args[0], b.args[0]
+    # &&T comparisons compare the referents: strip every reference level on both sides
+    n = 0
+    while a.op in ("ref", "refv", "refo") and b.op in ("ref", "refv", "refo") and n < 4:
+        a, b = deref_value(eng, call["state"], a), deref_value(eng, call["state"], b)
+        n += 1
     return mk("eq" if meth == "eq" else "ne", a, b)
 
 
